@@ -36,6 +36,8 @@ type Profile struct {
 	// PublishFaultPct: this share of the publishes runs its first attempt with a
 	// failing statement (the publisher retries after an error)
 	PublishFaultPct int
+	// CallFaultPct: the same for unary pulls and ModifyAckDeadline calls
+	CallFaultPct int
 	NoTick          bool // no per-statement clock tick (needed when background goroutines use the database)
 }
 
@@ -368,6 +370,10 @@ func (g *Gen) Step() {
 	w, r := g.W, g.R
 	g.n++
 	op := g.pick(g.P.W)
+	w.CallFaultAt = 0
+	if g.P.CallFaultPct > 0 && (op == "pull" || op == "pull-due" || op == "modack") && r.Intn(100) < g.P.CallFaultPct {
+		w.CallFaultAt = 1 + r.Intn(8)
+	}
 	subs := g.liveSubs()
 	var s *Sub
 	if len(subs) > 0 {
